@@ -829,6 +829,7 @@ func checkC14(c *Ctx, r *Report) {
 	r.Assumptions = []string{"time.Parse(layout, s) succeeds only for strings in the layout's format", "os.DirEntry contract"}
 	ro := c.roles(r)
 	fileAppenderDecisions(r, c.checkFileAppenderSemantics(r, ro, "C14.file-values"))
+	c.checkRollingLoggerSemantics(r, ro, "C14.rolling-values") // a start-up sweep must not remove the file being written
 	if c.checkRetentionSemantics(r, ro, "C14.retention-values") {
 		r.Decide([]string{"C14.age:", "C14.guards:", "C14.path:"}, nil, "the cleanup launched by a rotation evaluated over directory populations: the removed set equals the statement's")
 	}
@@ -862,9 +863,43 @@ func checkC14(c *Ctx, r *Report) {
 	if rm == nil {
 		return
 	}
-	// launched asynchronously only, from the rotation step
+	// launched asynchronously only, from the rotation step; a synchronous sweep is a violation where it delays a log
+	// call, i.e. in a function reachable from an Append/Write without crossing a go statement (a sweep at start-up is
+	// not: what it may remove is decided by C14.rolling-values)
+	hot := map[*ssa.Function]bool{}
+	{
+		var work []*ssa.Function
+		for _, nt := range append(append([]*types.Named{}, ro.LeafAppenders...), ro.Loggers...) {
+			for _, m := range []string{"Append", "Write"} {
+				if f := c.declaredMethod(nt, m); f != nil && !hot[f] {
+					hot[f] = true
+					work = append(work, f)
+				}
+			}
+		}
+		for len(work) > 0 {
+			f := work[len(work)-1]
+			work = work[:len(work)-1]
+			goT := map[*ssa.Function]bool{}
+			eachInstr(f, func(in ssa.Instruction) {
+				if t, ok := goStart(in); ok && t != nil {
+					goT[t] = true
+				}
+			})
+			for _, g := range c.moduleCallees(f) {
+				if !hot[g] && !goT[g] {
+					hot[g] = true
+					work = append(work, g)
+				}
+			}
+		}
+	}
 	for _, cs := range c.callSitesOf(ret) {
 		if _, isGo := cs.(*ssa.Go); !isGo {
+			if !hot[cs.Parent()] {
+				r.OK("C14.async:"+fname(cs.Parent()), "a synchronous sweep in %s, which no Append/Write reaches without a go statement: it delays no log call", fname(cs.Parent()))
+				continue
+			}
 			r.Fail("C14.async:"+fname(cs.Parent()), c.instrPos(cs), "retention runs synchronously on the log call path")
 		} else {
 			r.OK("C14.async:"+fname(cs.Parent()), "retention launched with go from %s", fname(cs.Parent()))
